@@ -68,13 +68,13 @@ class Scenario:
 
 # ------------------------------------------------------------------------------------------------
 def gen_file(rng, big=False):
-    n = rng.choice([0, 1, 5, 17, 40]) if not big else rng.choice([4095, 4096, 4097, 12288, 12289])
+    n = rng.choice([0, 1, 5, 17, 40]) if not big else rng.choice([4095, 4096, 4097, 12288, 12289, 28672, 28673])
     return {'k': 'file', 'data': bytes(rng.randrange(97, 123) for _ in range(n)), 'mtime_ns': rng.choice(MTIMES)}
 
 
-def gen_tree(rng, max_entries=10, depth=3, links=True, root_kind='dir'):
+def gen_tree(rng, max_entries=10, depth=3, links=True, root_kind='dir', p_big=0.05):
     if root_kind == 'file':
-        return {'': gen_file(rng)}
+        return {'': gen_file(rng, big=rng.random() < p_big)}
     if root_kind == 'link':
         return {'': {'k': 'link', 'text': rng.choice([b'../outside/target.txt', b'../outside/dir', b'nonexistent'])}}
     t = {'': {'k': 'dir'}}
@@ -92,7 +92,7 @@ def gen_tree(rng, max_entries=10, depth=3, links=True, root_kind='dir'):
         elif r < 0.4 and links:
             t[p] = {'k': 'link', 'text': rng.choice(LINK_TEXTS + [b'../outside/target.txt', b'../outside/dir', b'../../outside/dir'])}
         else:
-            t[p] = gen_file(rng, big=rng.random() < 0.05)
+            t[p] = gen_file(rng, big=rng.random() < p_big)
     return t
 
 
@@ -165,12 +165,12 @@ OUTSIDE = {'': {'k': 'dir'}, 'target.txt': {'k': 'file', 'data': b'outside-targe
            'dir/a': {'k': 'file', 'data': b'outside-a', 'mtime_ns': T0 - 7}}
 
 
-def gen_scenario(rng, profile='mixed'):
+def gen_scenario(rng, profile='mixed', p_big=0.05):
     sc = Scenario()
     sc.outside = {k: dict(v) for k, v in OUTSIDE.items()}
     rk = rng.random()
     root_kind = 'dir' if rk < 0.8 else ('file' if rk < 0.92 else 'link')
-    sc.src = gen_tree(rng, root_kind=root_kind)
+    sc.src = gen_tree(rng, root_kind=root_kind, p_big=p_big)
     sc.dest = derive_dest(rng, sc.src)
     if rng.random() < 0.12 and sc.dest:                # conflicting destination root
         k = rng.choice(['file', 'dir', 'link'])
@@ -198,6 +198,20 @@ def gen_scenario(rng, profile='mixed'):
                 nm = choice[0].split('/')[-1]
                 sc.filters = ['-(.*/)?' + re.escape(nm)]
                 sc.excluded = sorted(p for p in allp if p and p.split('/')[-1] == nm)
+    return sc
+
+
+def gen_faulty(rng):
+    """A scenario with multi-chunk files and a random fault plan: failing destination commands, failing
+    writes inside a chunk, failing source reads."""
+    sc = gen_scenario(rng, 'clean' if rng.random() < 0.7 else 'mixed', p_big=0.45)
+    k = rng.random()
+    fd = sorted(rng.sample(range(0, 10), rng.choice([0, 0, 1, 1, 2])))
+    fw = sorted(rng.sample(range(0, 8), rng.choice([0, 1, 1, 2])))
+    fsrc = sorted(rng.sample(range(0, 4), rng.choice([0, 0, 0, 1])))
+    if k < 0.15:
+        fd, fsrc = [], []
+    sc.faults = {'fd': fd, 'fsrc': fsrc, 'lag': 0, 'fw': fw}
     return sc
 
 
@@ -257,7 +271,8 @@ def model_line(sc, src_abs, dest_abs, orders=None):
     parts = ['RUN', 'cfg=' + cfg, 'anc=' + sc.dest_anc, 'ans=' + (','.join(sc.answers) or '-'), 'bits=-',
              'ex=' + (';'.join(hexs(p) for p in sc.excluded) or '-'),
              'fd=' + (','.join(map(str, sc.faults['fd'])) or '-'), 'fsrc=' + (','.join(map(str, sc.faults['fsrc'])) or '-'),
-             'lag=%d' % sc.faults['lag'], 'S'] + tree_tokens(sc.src, src_abs) + ['E', 'D'] + tree_tokens(sc.dest, dest_abs) + ['E']
+             'lag=%d' % sc.faults['lag'], 'fw=' + (','.join(map(str, sc.faults.get('fw', []))) or '-'),
+             'stop=' + ('-' if sc.faults.get('stop') is None else str(sc.faults['stop'])), 'S'] + tree_tokens(sc.src, src_abs) + ['E', 'D'] + tree_tokens(sc.dest, dest_abs) + ['E']
     if orders:
         parts += ['LS'] + [hexs(p) for p in orders[0]] + ['E', 'LD'] + [hexs(p) for p in orders[1]] + ['E']
     return ' '.join(parts)
@@ -438,7 +453,8 @@ def run_scenario(sc, binary, jbin, base, fake_ssh=None, timeout=60, extra_env=No
         o.model = parse_model(vlib.judge(jbin, [mline])[0])
         env = {'RJRSSYNC_TEST_PROMPT_RESPONSE': prompt_env(o.model['prompts'], sc.answers),
                'RJRSSYNC_VERIF_CMD_LOG': os.path.join(root, 'cmdlog')}
-        fl = ['cmd:%d:error' % k for k in sc.faults['fd']] + ['get:%d:error' % k for k in sc.faults['fsrc']]
+        fl = ['cmd:%d:error' % k for k in sc.faults['fd']] + ['get:%d:error' % k for k in sc.faults['fsrc']] \
+            + ['write:%d:fail' % k for k in sc.faults.get('fw', [])]
         if fl:
             env['RJRSSYNC_VERIF_FAULTS'] = ','.join(fl)
         if extra_env:
@@ -460,24 +476,35 @@ def run_scenario(sc, binary, jbin, base, fake_ssh=None, timeout=60, extra_env=No
                   'nprompts': len(ANSI_PROMPT.findall(r['stdout']))}
         o.mismatch = compare(sc, o)
         o.lag = sc.faults['lag']
-        if o.mismatch and o.model['errs']:
+        o.stop = sc.faults.get('stop')
+        if o.mismatch and (o.model['errs'] or o.model['srcfail']):
             # an asynchronous destination error is noticed by the boss after a timing-dependent number of
-            # further steps: the model admits every lag; find the one this run took
+            # further steps, and when the boss gives up (source failure, noticed error) the destination doer
+            # may not yet have executed everything that was sent to it: the model admits every lag and every
+            # stopping point; find the ones this run took
             first = o.model
-            for lag in range(1, 40):
-                sc2 = Scenario.from_json(sc.to_json())
-                sc2.faults = dict(sc.faults, lag=lag)
-                m2 = parse_model(vlib.judge(jbin, [model_line(sc2, src_abs, dest_abs, orders)])[0])
-                o.model = m2
-                mm = compare(sc, o)
-                if not mm:
-                    o.mismatch, o.lag = [], lag
+            MUT = ('CreateRootAncestors', 'CreateOrUpdateFile', 'CreateSymlink', 'CreateFolder', 'DeleteFile', 'DeleteFolder', 'DeleteSymlink')
+            n_mut = sum(1 for c in o.impl['dest_cmds'] if c in MUT)
+            found = False
+            for stop in ([sc.faults.get('stop')] + ([n_mut] if sc.faults.get('stop') is None else [])):
+                prev = None
+                for lag in range(0, 200):
+                    if stop == sc.faults.get('stop') and lag == sc.faults['lag']:
+                        continue
+                    sc2 = Scenario.from_json(sc.to_json())
+                    sc2.faults = dict(sc.faults, lag=lag, stop=stop)
+                    m2 = parse_model(vlib.judge(jbin, [model_line(sc2, src_abs, dest_abs, orders)])[0])
+                    o.model = m2
+                    mm = compare(sc, o)
+                    if not mm:
+                        o.mismatch, o.lag, o.stop = [], lag, stop
+                        found = True
+                        break
+                    if lag > 1 and m2 == prev:
+                        break
+                    prev = m2
+                if found:
                     break
-                if m2['dest'] == first['dest'] and lag > 1 and m2 == prev:
-                    break
-                prev = m2
-            else:
-                pass
             if o.mismatch:
                 o.model = first
                 o.mismatch = compare(sc, o)
